@@ -577,18 +577,31 @@ pub fn hit_object_line(r: &mut Rng, cfg: &Cfg, mode: u8, time: f64) -> ObjGen {
         _ => 3,
     };
     let base = [1i64, 2, 8, 128][kind as usize];
-    let ty = if h >= 2 && r.chance(1, 12) {
+    // `ty_val`: the numeric type when it is known (None for garbage tokens)
+    let (ty, ty_val): (String, Option<i64>) = if h >= 2 && r.chance(1, 12) {
         if r.chance(1, 2) {
-            format!("{}", r.below(256))
+            let v = r.below(256) as i64;
+            (format!("{v}"), Some(v))
         } else {
-            (*r.pick(&["", "x", "-1", "256", "1.0", "2147483648", " 1"])).to_string()
+            ((*r.pick(&["", "x", "-1", "256", "1.0", "2147483648", " 1"])).to_string(), None)
         }
     } else if h >= 1 && r.chance(1, 20) {
         // extra kind bits: precedence circle > slider > spinner > hold decides
-        format!("{}", base | nc | co | [8i64, 128, 2, 1][r.below(4)])
+        let v = base | nc | co | [8i64, 128, 2, 1][r.below(4)];
+        (format!("{v}"), Some(v))
     } else {
-        format!("{}", base | nc | co)
+        (format!("{}", base | nc | co), Some(base | nc | co))
     };
+    // the kind the parser will see; a kind-specific *time* field is a time only if the parser reads it as one
+    // (a hold's end time in a line that is parsed as a circle is bank info, not a time, and must not be shifted)
+    let eff_kind = match ty_val {
+        Some(v) if v & 1 != 0 => 0u8,
+        Some(v) if v & 2 != 0 => 1,
+        Some(v) if v & 8 != 0 => 2,
+        Some(v) if v & 128 != 0 => 3,
+        _ => kind,
+    };
+    let ts_if = |v: f64, is_time: bool| if is_time { fmt_time(v + cfg.shift as f64) } else { fmt_time(v) };
     // the kind the line is formatted for stays `kind`; the flags may say otherwise in hostile mode
     let snd = if h >= 2 && r.chance(1, 12) {
         (*r.pick(&["", "x", "-1", "256", "16", "255", "2147483648", "1.0"])).to_string()
@@ -667,7 +680,7 @@ pub fn hit_object_line(r: &mut Rng, cfg: &Cfg, mode: u8, time: f64) -> ObjGen {
                 let e = if h >= 2 && r.chance(1, 8) {
                     (*r.pick(HOSTILE_NUMS)).to_string()
                 } else {
-                    ts(time + r.range(-100, 3000) as f64)
+                    ts_if(time + r.range(-100, 3000) as f64, eff_kind >= 2)
                 };
                 line.push_str(&e);
                 if r.chance(1, 2) {
@@ -682,7 +695,7 @@ pub fn hit_object_line(r: &mut Rng, cfg: &Cfg, mode: u8, time: f64) -> ObjGen {
                 if h >= 2 && r.chance(1, 8) {
                     line.push_str(*r.pick(HOSTILE_NUMS));
                 } else {
-                    line.push_str(&ts(time + r.range(-100, 2000) as f64));
+                    line.push_str(&ts_if(time + r.range(-100, 2000) as f64, eff_kind >= 2));
                 }
                 if r.chance(2, 3) {
                     line.push(':');
